@@ -237,6 +237,12 @@ class Response:
         elif self.status is not None:
             raise AssertionError("Response headers already set!")
 
+        if not isinstance(status, str):
+            raise TypeError('%r is not a string' % status)
+        # the status line may carry what a field value may carry: no CR, LF, NUL
+        if not HEADER_VALUE_RE.fullmatch(status):
+            raise InvalidHeader('%r' % status)
+
         self.status = status
 
         # get the status code from the response here so we can use it to check
